@@ -3,20 +3,29 @@
    Proofs/, non-vacuity examples, and Print Assumptions.
 
    Vocabulary (Model/Resolver.v): a program is abstracted to the events the
-   resolver reads; [resolve pi P] mirrors resolver.Resolve, with Go's map
-   iteration order given by an oracle [pi] (any permutation each time);
-   [constraints P] is the specification: one type variable per parameter and
-   per global after static scoping, constants from direct uses, equalities
-   from variables passed as arguments, "not an array" for expression
-   arguments; [sat P] = some assignment satisfies all of them. *)
+   resolver reads (Use v scalar/array/unknown, Call f [ArgVar v | ArgExpr es]);
+   [resolve pi P] mirrors resolver.Resolve (recordVar, the visitor,
+   walkOrdered, the pass loop with its cut-off of 100, topoSort, defaulting,
+   index assignment), Go's map iteration order being an oracle [pi] that may
+   return any permutation each time it is asked.  [constraints P] is the
+   specification: one type variable per parameter and per global after static
+   scoping; constants from direct uses, ARGV/ENVIRON/FIELDS and the special
+   variables; equalities from variables passed as arguments; "not an array"
+   for parameters that receive an expression; [sat P] = some assignment of
+   scalar/array satisfies all of them.  [wf0 P] is the property's
+   precondition: functions defined once, calls of defined functions with no
+   more arguments than parameters, no parameter called, no global variable
+   named like a function. *)
 From Verif Require Import Lib.Base Model.Resolver Proofs.Resolver Proofs.ResolverSound
-  Proofs.ResolverExact Proofs.ResolverOrder Proofs.ResolverCutoff.
+  Proofs.ResolverExact Proofs.ResolverOrder Proofs.ResolverFlat Proofs.ResolverNoPanic
+  Proofs.ResolverTopo Proofs.ResolverMain Proofs.ResolverCutoff.
 
 (* SOUND.  Whatever the map iteration order: if the resolver accepts, the types
    it returns satisfy every usage constraint, and every demand the compiler
    makes on them holds (scalarInfo/arrayInfo never reach "internal error",
    every argument in an array-parameter position is a variable of array type,
-   an expression is never passed for an array parameter). *)
+   an expression is never passed for an array parameter, length(x) sees a
+   typed x). *)
 Theorem C16_sound : forall (pi : oracle) (P : program) (F : final),
   perm_oracle pi -> names_ok P ->
   resolve pi P = ROk F ->
@@ -32,30 +41,47 @@ Theorem C16_complete : forall (pi : oracle) (P : program) (e : rerr),
 Proof. exact (resolve_complete cutoff). Qed.
 Print Assumptions C16_complete.
 
-(* EXACT (partial: guard = the 100-pass cut-off did not fire).  For a program
-   that meets the property's precondition [wf] (functions defined once, calls
-   of defined functions with no more arguments than parameters, no variable
-   named like a function) the verdict is exactly satisfiability. *)
+(* For a program that meets the precondition there are only three outcomes:
+   accepted, a type error, or "too many iterations". *)
+Theorem C16_outcomes : forall (pi : oracle) (P : program),
+  perm_oracle pi -> wf0 P = true ->
+  (exists F, resolve pi P = ROk F) \/
+  (exists e, resolve pi P = RErr e /\ is_type_error e = true) \/
+  resolve pi P = RErr ETooManyIter.
+Proof. exact (main_outcomes cutoff). Qed.
+Print Assumptions C16_outcomes.
+
+(* EXACT (partial: the guard excludes the 100-pass cut-off, finding F-C16-1).
+   The verdict is exactly satisfiability of the usage constraints. *)
 Theorem C16_exact_partial : forall (pi : oracle) (P : program),
-  perm_oracle pi -> wf P = true ->
-  resolve pi P <> RErr ETooManyIter -> resolve pi P <> RFuel ->
+  perm_oracle pi -> wf0 P = true ->
+  resolve pi P <> RErr ETooManyIter ->
   ((exists F, resolve pi P = ROk F) <-> sat P).
-Proof. exact (resolve_exact cutoff). Qed.
+Proof. exact (main_exact cutoff). Qed.
 Print Assumptions C16_exact_partial.
 
 (* ORDER INDEPENDENT (partial: same guard).  Reordering the function definitions
-   and the BEGIN/action/END events in any way, and any change of Go's map
-   iteration order, changes neither the verdict nor which variables and
-   parameters are arrays. *)
+   and the BEGIN/action/END events in any way, together with any change of
+   Go's map iteration order, changes neither the verdict nor which variables
+   and parameters are arrays. *)
 Theorem C16_order_independent_partial : forall (pi pi' : oracle) (P P' : program),
-  perm_oracle pi -> perm_oracle pi' -> wf P = true -> reordered P P' ->
-  resolve pi P <> RErr ETooManyIter -> resolve pi P <> RFuel ->
-  resolve pi' P' <> RErr ETooManyIter -> resolve pi' P' <> RFuel ->
+  perm_oracle pi -> perm_oracle pi' -> wf0 P = true -> reordered P P' ->
+  resolve pi P <> RErr ETooManyIter -> resolve pi' P' <> RErr ETooManyIter ->
   ((exists F, resolve pi P = ROk F) <-> (exists F', resolve pi' P' = ROk F')) /\
   (forall F F', resolve pi P = ROk F -> resolve pi' P' = ROk F' ->
                 forall k, rho_of (fin_types F') k = rho_of (fin_types F) k).
-Proof. exact (reorder_independent cutoff). Qed.
+Proof. exact (main_order_independent cutoff). Qed.
 Print Assumptions C16_order_independent_partial.
+
+(* Go's randomised map iteration alone never changes verdict or types *)
+Theorem C16_map_order_irrelevant_partial : forall (pi pi' : oracle) (P : program),
+  perm_oracle pi -> perm_oracle pi' -> wf0 P = true ->
+  resolve pi P <> RErr ETooManyIter -> resolve pi' P <> RErr ETooManyIter ->
+  ((exists F, resolve pi P = ROk F) <-> (exists F', resolve pi' P = ROk F')) /\
+  (forall F F', resolve pi P = ROk F -> resolve pi' P = ROk F' ->
+                forall k, rho_of (fin_types F') k = rho_of (fin_types F) k).
+Proof. exact (main_map_order_irrelevant cutoff). Qed.
+Print Assumptions C16_map_order_irrelevant_partial.
 
 (* LEAST SOLUTION / RENAMING, abstractly: if the constraint systems of two
    programs correspond under a bijection phi of the type variables (a
@@ -82,6 +108,23 @@ Theorem C16_verdict_correspond_partial : forall (P P' : program) (phi psi : key 
 Proof. exact verdict_correspond. Qed.
 Print Assumptions C16_verdict_correspond_partial.
 
+(* NO PANIC, NO FUEL: for every program (valid or not) the model of the resolver
+   never indexes funcInfo.Params out of range nor reflects on a missing native
+   function, and the model of topoSort terminates within its fuel. *)
+Theorem C16_no_panic : forall (pi : oracle) (P : program), resolve pi P <> RPanic.
+Proof. exact (resolve_cut_no_panic cutoff). Qed.
+Print Assumptions C16_no_panic.
+
+Theorem C16_no_fuel : forall (pi : oracle) (P : program), perm_oracle pi -> resolve pi P <> RFuel.
+Proof. exact (resolve_cut_no_fuel cutoff). Qed.
+Print Assumptions C16_no_fuel.
+
+(* The precondition needs to speak about call heads and names only: the
+   per-argument range conditions of [wf] follow from the arity check. *)
+Theorem C16_wf_heads_suffice : forall P, wf0 P = true <-> wf P = true.
+Proof. exact (fun P => conj (wf0_wf P) (wf_wf0 P)). Qed.
+Print Assumptions C16_wf_heads_suffice.
+
 (* The full statement without the guard is false for the code as it is
    (finding F-C16-1): 101 functions forwarding one parameter, the array known
    only at the caller. *)
@@ -102,6 +145,20 @@ Proof.
 Qed.
 Print Assumptions C16_cutoff_witness.
 
-(* non-vacuity *)
+(* non-vacuity: the hypotheses are met by concrete oracles and programs; the
+   guard of the partial theorems holds for the 100-function chain *)
 Example C16_ex_oracle : perm_oracle (seed_oracle 3).
 Proof. exact (seed_oracle_perm 3). Qed.
+
+Example C16_ex_guard :
+  wf0 (chain_prog 100) = true /\ resolve (seed_oracle 0) (chain_prog 100) <> RErr ETooManyIter.
+Proof.
+  split; [apply wf_wf0; vm_compute; reflexivity|].
+  destruct chain_100_accepted as [F HF]. rewrite HF. discriminate.
+Qed.
+
+Example C16_ex_reordered : reordered (chain_prog 3)
+  {| p_natives := []; p_funcs := rev (p_funcs (chain_prog 3)); p_main := p_main (chain_prog 3) |}.
+Proof.
+  split; [reflexivity|]. split; [apply Permutation.Permutation_rev | apply Permutation.Permutation_refl].
+Qed.
